@@ -2,7 +2,11 @@ package run
 
 import (
 	"fmt"
+	"os"
+	"runtime"
 	"strings"
+	"sync/atomic"
+	"time"
 
 	"github.com/antchfx/xpath"
 	vs "github.com/antchfx/xpath/verifsync"
@@ -24,6 +28,7 @@ type task struct {
 	viol     []Violation
 	note     string // attached to the next yield message (trace mode only)
 	hash     uint64
+	goid     atomic.Uint64
 }
 
 type ymsg struct {
@@ -61,7 +66,14 @@ type gstate struct {
 	overlap   bool
 	trace     []traceEntry
 	deadlock  string
+	ext       []bool // task is blocked on a primitive the simulator does not model
 }
+
+var processPoisoned atomic.Bool
+
+// ProcessPoisoned: some run of this process ended with task goroutines left
+// behind; no further run should be executed in it.
+func ProcessPoisoned() bool { return processPoisoned.Load() }
 
 // yield parks the calling task and hands control to the scheduler. The channel
 // operations are hidden from the race detector: the tasks stay logically
@@ -88,7 +100,7 @@ func (x *exec) runnable() []int32 {
 	g := x.sim.g
 	var out []int32
 	for i := range x.sim.tasks {
-		if g.done[i] {
+		if g.done[i] || g.ext[i] {
 			continue
 		}
 		if p := g.pend[i]; p != nil && !x.sim.locks.canAcquire(*p, int32(i)) {
@@ -189,7 +201,8 @@ func RunG(s *scn.Scenario, opt Options) *Result {
 	// reference outcomes, before any concurrency exists
 	nt := len(s.Tasks)
 	g := &gstate{rng: scn.NewRng(s.SchedSeed, 0x5ced), done: make([]bool, nt), pend: make([]*lockReq, nt), inOp: make([]int64, nt),
-		inWindow: make([]uint64, nt), prio: make([]int, nt), preemptAt: map[int64]bool{}, last: -1}
+		inWindow: make([]uint64, nt), prio: make([]int, nt), preemptAt: map[int64]bool{}, last: -1, ext: make([]bool, nt)}
+
 	x.sim.g = g
 	x.sim.toSched = make(chan ymsg)
 	var estimate int64
@@ -219,7 +232,10 @@ func RunG(s *scn.Scenario, opt Options) *Result {
 		go x.taskMain(t)
 	}
 	g.live = nt
+	stopWatch := make(chan struct{})
+	go x.watchdog(stopWatch)
 	x.schedule()
+	close(stopWatch)
 
 	if g.deadlock == "" {
 		for _, t := range x.sim.tasks {
@@ -237,6 +253,8 @@ func RunG(s *scn.Scenario, opt Options) *Result {
 		x.verifyPristine(opt)
 	} else {
 		x.viol("deadlock", "deadlock", g.deadlock, -1)
+		x.res.Poisoned = true
+		processPoisoned.Store(true)
 	}
 	if rep := opt.RaceLog.Since(mark); rep != "" {
 		x.raceViolations(rep)
@@ -279,6 +297,11 @@ func (x *exec) schedule() {
 					w = append(w, fmt.Sprintf("task %d waits for lock %d (write=%v)", i, p.lock, p.write))
 				}
 			}
+			for i, e := range g.ext {
+				if e && !g.done[i] {
+					w = append(w, fmt.Sprintf("task %d is blocked on a channel / condition inside the package that nobody is left to signal", i))
+				}
+			}
 			g.deadlock = "no task can run: " + strings.Join(w, "; ")
 			return
 		}
@@ -311,8 +334,31 @@ func (x *exec) schedule() {
 		s.current.Store(next)
 		raceDisable()
 		t.wake <- struct{}{}
-		m := <-s.toSched
 		raceEnable()
+		var m ymsg
+		for {
+			var ok bool
+			m, ok = x.recv(t)
+			if !ok {
+				// the running task blocked on something the simulator does not model;
+				// leave it there and let another task run (it announces itself again
+				// at its next yield point once somebody has woken it)
+				g.ext[next] = true
+				if !s.degraded.Load() {
+					s.degraded.Store(true)
+				}
+				x.res.Stats.Probes["task_blocked_on_unmodelled_primitive"]++
+				m = ymsg{task: next, kind: evExtBlock}
+				break
+			}
+			if m.task == next {
+				break
+			}
+			// a task that had been blocked externally reached a yield point: it is
+			// parked in the simulator again
+			x.handle(m)
+			g.ext[m.task] = false
+		}
 		s.current.Store(-1)
 		x.handle(m)
 		// the cache can only have changed when a write lock was just released;
@@ -321,6 +367,106 @@ func (x *exec) schedule() {
 			x.cache.check(int(g.point))
 		}
 	}
+}
+
+// recv waits for the next yield message (a plain blocking receive, hidden from
+// the race detector). While it waits, the watchdog goroutine looks at the
+// running task every 2 ms; if the task's goroutine is parked on something that
+// is not the simulator (decided from its state in a stack dump, never from
+// elapsed time alone) the watchdog posts an evExtBlock message on its behalf.
+func (x *exec) recv(t *task) (m ymsg, ok bool) {
+	s := x.sim
+	s.waitSeq.Add(1)
+	s.waitTask.Store(t.id)
+	raceDisable()
+	m = <-s.toSched
+	raceEnable()
+	s.waitTask.Store(-1)
+	if m.kind == evExtBlock {
+		if m.task != t.id || m.a != s.waitSeq.Load() {
+			// stale (the task yielded in the meantime): ignore and keep waiting
+			return x.recv2(t)
+		}
+		return m, false
+	}
+	return m, true
+}
+
+func (x *exec) recv2(t *task) (ymsg, bool) { return x.recv(t) }
+
+// watchdog runs for the duration of one mode G run.
+func (x *exec) watchdog(stop chan struct{}) {
+	s := x.sim
+	var lastSeq uint64
+	var lastTask int32 = -1
+	for {
+		select {
+		case <-stop:
+			return
+		case <-time.After(2 * time.Millisecond):
+		}
+		id, seq := s.waitTask.Load(), s.waitSeq.Load()
+		if id < 0 || id != lastTask || seq != lastSeq {
+			lastTask, lastSeq = id, seq
+			continue // the scheduler moved on since the last look
+		}
+		if !blockedOutsideSimulator(s.tasks[id].goid.Load()) {
+			continue
+		}
+		time.Sleep(time.Millisecond)
+		if !blockedOutsideSimulator(s.tasks[id].goid.Load()) {
+			continue // must be seen waiting twice
+		}
+		if s.waitTask.Load() != id || s.waitSeq.Load() != seq {
+			continue
+		}
+		raceDisable()
+		select {
+		case s.toSched <- ymsg{task: id, kind: evExtBlock, a: seq}:
+		case <-stop:
+		}
+		raceEnable()
+		lastTask = -1
+	}
+}
+
+// blockedOutsideSimulator inspects the goroutine's state: waiting (channel,
+// select, Cond, semaphore, ...) but not inside the simulator's own yield.
+func blockedOutsideSimulator(id uint64) bool {
+	if id == 0 || os.Getenv("XPSIM_NOSTACK") != "" {
+		return false
+	}
+	buf := make([]byte, 1<<18)
+	n := runtime.Stack(buf, true)
+	dump := string(buf[:n])
+	hdr := fmt.Sprintf("goroutine %d [", id)
+	i := strings.Index(dump, hdr)
+	if i < 0 {
+		return false
+	}
+	rest := dump[i+len(hdr):]
+	end := strings.Index(rest, "\n\ngoroutine ")
+	if end < 0 {
+		end = len(rest)
+	}
+	block := rest[:end]
+	state := block[:strings.Index(block, "]")]
+	if j := strings.Index(state, ","); j >= 0 {
+		state = state[:j]
+	}
+	// only genuine waits on a synchronisation object count; a goroutine that is
+	// running, runnable, in a syscall, or held up by the runtime (GC assist wait,
+	// preempted, copystack, ...) is not blocked in the package under test
+	switch {
+	case strings.HasPrefix(state, "chan receive"), strings.HasPrefix(state, "chan send"), strings.HasPrefix(state, "select"),
+		strings.HasPrefix(state, "sync."), state == "semacquire", state == "sleep":
+	default:
+		return false
+	}
+	if strings.Contains(block, "verifsimw/run.(*Sim).yield") || strings.Contains(block, "verifsimw/run.(*exec).taskMain(") && !strings.Contains(block, "github.com/antchfx/xpath") {
+		return false // parked (or about to park) in the simulator itself
+	}
+	return true
 }
 
 func (x *exec) handle(m ymsg) {
@@ -370,6 +516,7 @@ func (x *exec) handle(m ymsg) {
 
 func (x *exec) taskMain(t *task) {
 	s := x.sim
+	t.goid.Store(goid())
 	raceDisable()
 	<-t.wake
 	raceEnable()
